@@ -3,6 +3,7 @@ package c14
 
 import (
 	"bytes"
+	"encoding/gob"
 	"fmt"
 	"io"
 	"os"
@@ -11,6 +12,8 @@ import (
 
 	"verif/harness/h"
 
+	"github.com/itchio/lake/tlc"
+	"github.com/itchio/wharf/pwr/bowl"
 	"github.com/itchio/wharf/pwr/overlay"
 	"github.com/itchio/wharf/wire"
 	"github.com/pkg/errors"
@@ -387,6 +390,208 @@ var prop = h.Prop[Spec]{
 
 func TestProp(t *testing.T) { h.Run(t, prop) }
 
+// ---------------------------------------------------------------------------
+// The same write patterns driven through the overlay writer's real caller, the
+// overlay bowl: GetWriter + EntryWriter.Resume/Save/Write/Finalize, new
+// sessions from a gob copy of the writer checkpoint in a brand-new bowl, then
+// Commit (applyOverlays + truncate). Here the bowl - not the harness -
+// positions the old-file reader and the staged overlay file on resume.
+//
+// Actions: 0 nothing, 1 Save, 2 Save + the session goes on for one more write
+// (and, on odd steps, one more Save) before it dies, 3 Save + the session dies
+// at once; after 2 and 3 a new bowl resumes from the saved checkpoint.
+
+func containers(oldLen, newLen int) (*tlc.Container, *tlc.Container) {
+	mk := func(n int) *tlc.Container {
+		return &tlc.Container{Files: []*tlc.File{{Path: "f", Mode: 0o644, Size: int64(n), Offset: 0}}, Size: int64(n)}
+	}
+	return mk(oldLen), mk(newLen)
+}
+
+func checkBowl(s Spec) h.Result {
+	old, nw := contents(s)
+	cl := []string{"entropy:" + s.Entropy}
+	d := h.TempDir("c14b")
+	defer os.RemoveAll(d)
+	out, stage := filepath.Join(d, "out"), filepath.Join(d, "stage")
+	if err := os.MkdirAll(out, 0o755); err != nil {
+		return h.Result{Skip: "mkdir"}
+	}
+	if err := os.WriteFile(filepath.Join(out, "f"), old, 0o644); err != nil {
+		return h.Result{Skip: "cannot write"}
+	}
+	tc, sc := containers(len(old), len(nw))
+	newBowl := func() (bowl.Bowl, error) {
+		return bowl.NewOverlayBowl(bowl.OverlayBowlParams{TargetContainer: tc, SourceContainer: sc, OutputFolder: out, StageFolder: stage, Consumer: h.Quiet()})
+	}
+	b, err := newBowl()
+	if err != nil {
+		return h.Failf("NewOverlayBowl: %v", err)
+	}
+	w, err := b.GetWriter(0)
+	if err != nil {
+		return h.Failf("GetWriter: %v", err)
+	}
+	if _, err := w.Resume(nil); err != nil {
+		return h.Failf("EntryWriter.Resume(nil): %v", err)
+	}
+	pos, k, sessions, saves := 0, 0, 1, 0
+	slice := func() int {
+		n := 1
+		if len(s.Slices) > 0 {
+			n = s.Slices[k%len(s.Slices)]
+		}
+		if n < 1 {
+			n = 1
+		}
+		if pos+n > len(nw) {
+			n = len(nw) - pos
+		}
+		return n
+	}
+	fail := func(f string, a ...interface{}) h.Result {
+		return h.Result{Fail: fmt.Sprintf(f, a...), Classes: cl}
+	}
+	act := func(a int) *h.Result {
+		if a >= 2 && sessions >= 24 {
+			a = 1
+		}
+		if a == 0 {
+			return nil
+		}
+		ck, err := w.Save()
+		if err != nil {
+			r := fail("EntryWriter.Save after %d bytes: %v", pos, err)
+			return &r
+		}
+		saves++
+		if ck.Offset != int64(pos) || w.Tell() != int64(pos) {
+			r := fail("after Save: checkpoint offset %d, Tell() %d, but %d bytes of new content were written", ck.Offset, w.Tell(), pos)
+			return &r
+		}
+		if a == 1 {
+			return nil
+		}
+		bck, err := b.Save()
+		if err != nil {
+			r := fail("Bowl.Save: %v", err)
+			return &r
+		}
+		buf := new(bytes.Buffer)
+		if err := gob.NewEncoder(buf).Encode(struct {
+			W *bowl.WriterCheckpoint
+			B *bowl.BowlCheckpoint
+		}{ck, bck}); err != nil {
+			r := fail("checkpoint cannot be gob-encoded: %v", err)
+			return &r
+		}
+		if a == 2 {
+			// the dying session goes on: one more write, maybe one more save
+			if n := slice(); n > 0 {
+				if _, err := w.Write(nw[pos : pos+n]); err != nil {
+					r := fail("Write of %d bytes at %d: %v", n, pos, err)
+					return &r
+				}
+				if k%2 == 1 {
+					if _, err := w.Save(); err != nil {
+						r := fail("EntryWriter.Save: %v", err)
+						return &r
+					}
+				}
+				cl = append(cl, "bowl:session-wrote-after-the-checkpoint-it-is-resumed-from")
+			}
+		}
+		w.Close()
+		b.Close()
+		var c2 struct {
+			W *bowl.WriterCheckpoint
+			B *bowl.BowlCheckpoint
+		}
+		if err := gob.NewDecoder(buf).Decode(&c2); err != nil {
+			r := fail("checkpoint does not survive gob: %v", err)
+			return &r
+		}
+		if b, err = newBowl(); err != nil {
+			r := fail("NewOverlayBowl (new session): %v", err)
+			return &r
+		}
+		if err := b.Resume(c2.B); err != nil {
+			r := fail("Bowl.Resume: %v", err)
+			return &r
+		}
+		if w, err = b.GetWriter(0); err != nil {
+			r := fail("GetWriter (new session): %v", err)
+			return &r
+		}
+		off, err := w.Resume(c2.W)
+		if err != nil {
+			r := fail("EntryWriter.Resume from the checkpoint saved at %d: %v", pos, err)
+			return &r
+		}
+		if off != int64(pos) {
+			r := fail("EntryWriter.Resume returned offset %d, the checkpoint was saved at %d", off, pos)
+			return &r
+		}
+		sessions++
+		return nil
+	}
+	for _, a := range s.Pre {
+		if r := act(a); r != nil {
+			return *r
+		}
+	}
+	for pos < len(nw) {
+		n := slice()
+		wn, err := w.Write(nw[pos : pos+n])
+		if err != nil || wn != n {
+			return fail("Write of %d bytes at %d: n=%d err=%v", n, pos, wn, err)
+		}
+		pos += n
+		a := 0
+		if len(s.Actions) > 0 {
+			a = s.Actions[k%len(s.Actions)]
+		}
+		k++
+		if r := act(a); r != nil {
+			return *r
+		}
+	}
+	if err := w.Finalize(); err != nil {
+		return fail("Finalize: %v", err)
+	}
+	if err := w.Close(); err != nil {
+		return fail("Close: %v", err)
+	}
+	if err := b.Commit(); err != nil {
+		return fail("Commit: %v", err)
+	}
+	b.Close()
+	got, err := os.ReadFile(filepath.Join(out, "f"))
+	if err != nil {
+		return fail("reading the committed file: %v", err)
+	}
+	if !bytes.Equal(got, nw) {
+		return fail("after Commit the file has %d bytes, new content has %d, first difference at %d (%d sessions, %d saves)", len(got), len(nw), firstDiff(got, nw), sessions, saves)
+	}
+	if sessions > 1 {
+		cl = append(cl, "sessions:>1")
+	}
+	if saves > 0 {
+		cl = append(cl, "flush:some")
+	}
+	nt := false
+	for _, c := range cl {
+		if c == "bowl:session-wrote-after-the-checkpoint-it-is-resumed-from" {
+			nt = true
+		}
+	}
+	return h.Result{Classes: cl, NonTrivial: nt}
+}
+
+var propBowl = h.Prop[Spec]{ID: "C14", Name: "viabowl", Gen: prop.Gen, Check: checkBowl}
+
+func TestViaBowl(t *testing.T) { h.Run(t, propBowl) }
+
 func TestReplay(t *testing.T) {
-	h.ReplayMain(t, map[string]h.Replayer{"overlay": h.ReplayerOf(prop)})
+	h.ReplayMain(t, map[string]h.Replayer{"overlay": h.ReplayerOf(prop), "viabowl": h.ReplayerOf(propBowl)})
 }
